@@ -2,6 +2,7 @@ package treekit
 
 import (
 	"fmt"
+	"reflect"
 
 	"github.com/bradenaw/juniper/container/tree"
 	"github.com/bradenaw/juniper/iterator"
@@ -357,8 +358,8 @@ func (e *exec[K]) checkFirstLast(c Coll[K]) error {
 	fk, fv := c.First()
 	lk, lv := c.Last()
 	if e.m.Len() == 0 {
-		var zk K
-		if any(fk) != any(zk) || fv != nil || any(lk) != any(zk) || lv != nil {
+		// (IsZero, not ==: K may be a type == cannot compare, e.g. []byte)
+		if !reflect.ValueOf(&fk).Elem().IsZero() || fv != nil || !reflect.ValueOf(&lk).Elem().IsZero() || lv != nil {
 			return e.viol("first-last-empty", "First/Last on empty collection not zero: %v %v", fk, lk)
 		}
 		return nil
